@@ -315,8 +315,15 @@ def gen_script(rng, option, space_kind=None, dyadic=None, policy=None, static=Fa
     expect = {"dt": secs["time_step"] * f, "tsamples": [t * f for t in secs["t_sample"]],
               "tmax": (secs["t_max"] * f if secs["t_max"] is not None else (secs["t_sample"][-1] * f if secs["t_sample"] else None)),
               "interval": (secs["sampling_interval"] * f if "sampling_interval" in secs else 1.0), "time_unit": su, "stated_in": tu}
+    # the TYPE of the seed: everything int() accepts is a seed (also through the dictionary form of a script)
+    r = rng.random()
+    if r < 0.4:
+        kw["__seed_as__"] = rng.choice(["str", "np_int64", "array0", "float"])
+    if r < 0.2 or 0.4 <= r < 0.5:
+        kw["__from_dict__"] = True
     info = {"option": option, "policy": policy, "dyadic": dyadic and tu == "s" and "units_system" not in kw, "style": style, "nsp": nsp, "n": n,
             "space": system["space"]["type"], "mode": mode, "static": static, "explicit_tmax": explicit_tmax, "units": "units_system" in kw,
+            "seed_as": kw.get("__seed_as__", "int"), "from_dict": bool(kw.get("__from_dict__")) and "units_system" not in kw and not isinstance(kw["t_sample"], dict),
             "expect": expect, "ts_form": form, "quantity": (kw["units_system"]["quantity"] if "units_system" in kw else "molecule")}
     return {"system": system, "kw": kw}, info
 
